@@ -181,12 +181,12 @@ def pathAddCore (p : Path) (add : Nat) : Res Path :=
           .ok { p with base := base, first := first, len := len + add + 1 - p.off, keepPost := false }
 
 /-- `mpt_path_add(path, add)`: without storage (`base == NULL`) refused; a path that still refers to a plain string
-    gets a buffer with a copy of its data and the `add` bytes behind it (the array flag is NOT set by the code) -/
+    gets a buffer with a copy of its data and the `add` bytes behind it -/
 def pathAdd (p : Path) (add : Nat) : Res Path :=
   if !p.hasArray then
     if p.base.isEmpty then .err .MissingBuffer
     else if p.base.length < p.off + p.len + add then .oob
-    else pathAddCore { p with base := p.base.take (p.off + p.len + add) } add
+    else pathAddCore { p with base := p.base.take (p.off + p.len + add), hasArray := true } add
   else pathAddCore p add
 
 /-- `mpt_path_addchar` followed by `mpt_path_valid`: one more pending character that is kept -/
